@@ -167,6 +167,8 @@ pub struct TrParent {
     /// remove()/replace() requested by the callback: applied during this very process_events,
     /// after the child has been processed ("may be called at any time during processing")
     pub inproc: Rc<RefCell<Vec<InProc>>>,
+    /// what the parent returns from this process_events instead of the wrapper's answer
+    pub parent_ret: Rc<Cell<Option<PostAction>>>,
 }
 
 impl EventSource for TrParent {
@@ -182,6 +184,9 @@ impl EventSource for TrParent {
         let r = self.tr.process_events(readiness, token, callback)?;
         self.rets.borrow_mut().push(r);
         let mut r = r;
+        if let Some(p) = self.parent_ret.take() {
+            r = p;
+        }
         let todo: Vec<InProc> = self.inproc.borrow_mut().drain(..).collect();
         for t in todo {
             match t {
@@ -229,6 +234,7 @@ pub struct TransK {
     pub inproc: Rc<RefCell<Vec<InProc>>>,
     /// scripted failure armed for the next replacement child's register()
     pub arm_new_register_fail: bool,
+    pub parent_ret: Rc<Cell<Option<PostAction>>>,
     /// the history left the documented protocol (documented leak, non-alternating parent calls)
     pub gave_up: bool,
 }
@@ -261,6 +267,7 @@ pub fn insert_transient(sim: &Sim, id: Id, child: &ChildSpec, from_default: bool
     }
     let rets = Rc::new(RefCell::new(Vec::new()));
     let inproc = Rc::new(RefCell::new(Vec::new()));
+    let parent_ret = Rc::new(Cell::new(None));
     let (tr, children, current) = if from_default {
         (TransientSource::default(), vec![], None)
     } else {
@@ -270,11 +277,11 @@ pub fn insert_transient(sim: &Sim, id: Id, child: &ChildSpec, from_default: bool
     let sh = WrapShared::new(id);
     let cbd = Rc::new(Cell::new(0));
     let guard = DropCtr(cbd.clone());
-    let disp = Dispatcher::new(Wrap::new(TrParent { tr, rets: rets.clone(), inproc: inproc.clone() }, sh.clone()), move |child_no: u32, _, tag: &mut Tag| {
+    let disp = Dispatcher::new(Wrap::new(TrParent { tr, rets: rets.clone(), inproc: inproc.clone(), parent_ret: parent_ret.clone() }, sh.clone()), move |child_no: u32, _, tag: &mut Tag| {
         let _g = &guard;
         on_child_event(id, child_no, tag);
     });
-    let mut src = new_src(id, script, K::Trans(TransK { disp: Some(disp.clone()), children, current, child_disabled: false, pending_remove: false, pending_replace: None, rets, rets_checked: 0, inproc, arm_new_register_fail: false, gave_up: false }), sh, cbd);
+    let mut src = new_src(id, script, K::Trans(TransK { disp: Some(disp.clone()), children, current, child_disabled: false, pending_remove: false, pending_replace: None, rets, rets_checked: 0, inproc, arm_new_register_fail: false, parent_ret, gave_up: false }), sh, cbd);
     src.kept = true;
     let r = guarded(sim, "register_dispatcher", || h.register_dispatcher(disp).map_err(|e| e.to_string()));
     if let Some(r) = r {
@@ -307,12 +314,15 @@ fn on_child_event(id: Id, child_no: u32, tag: &mut Tag) {
     // the scripted return value becomes the child's post action
     let pa = match ret {
         Ret::Reregister => Some(PostAction::Reregister),
-        Ret::Disable => Some(PostAction::Disable),
+        Ret::Disable | Ret::DisableBoth => Some(PostAction::Disable),
         Ret::Remove => Some(PostAction::Remove),
         _ => None,
     };
     let mut st = sim.st.borrow_mut();
     if let Some(K::Trans(t)) = st.srcs.get_mut(&id).map(|s| &mut s.k) {
+        if ret == Ret::DisableBoth && t.current.is_some() && t.inproc.borrow().is_empty() {
+            t.parent_ret.set(Some(PostAction::Disable));
+        }
         if let Some(i) = t.current {
             t.children[i].log.next_ret.set(pa);
             match pa {
